@@ -316,9 +316,14 @@ func runCheck(c *Check, ctx *CheckCtx) int {
 		t0 := time.Now()
 		budget := u.Budget
 		if budget == 0 {
-			budget = 10 * time.Minute
+			// a check's units share 12 minutes (quick) or 90 minutes (thorough); a unit that hits its share reports time_cap_hit
+			total := 12 * time.Minute
 			if ctx.Tier == "thorough" {
-				budget = 25 * time.Minute
+				total = 90 * time.Minute
+			}
+			budget = total / time.Duration(len(units))
+			if budget < 90*time.Second {
+				budget = 90 * time.Second
 			}
 		}
 		deadline := time.Now().Add(budget)
